@@ -76,7 +76,7 @@ theorem accepted_sound (ex : String → Bool) (stream : List Item) :
     nor the insert count; the error count of the full stream is exactly the number of rejected
     elements, and the reduced stream reports none. -/
 theorem invalid_independent (s : KState) (stream : List Item) :
-    let good := stream.filter (fun it => match verdict (hasGraph s) it with | .store _ _ => true | _ => false)
+    let good := stream.filter (isStored (hasGraph s))
     core (bulkAdd s stream).st = core (bulkAdd s good).st ∧
     (bulkAdd s stream).insertCount = (bulkAdd s good).insertCount ∧
     (bulkAdd s good).errorCount = 0 := by
@@ -84,11 +84,12 @@ theorem invalid_independent (s : KState) (stream : List Item) :
   have hacc : accepted (hasGraph s) good = accepted (hasGraph s) stream := by
     simp only [good, accepted, List.filterMap_filter]
     congr 1; funext it
-    cases hv : verdict (hasGraph s) it <;> simp [hv]
+    cases hv : verdict (hasGraph s) it <;> simp [isStored, hv]
   have herr : errors (hasGraph s) good = 0 := by
     simp only [good, errors, List.countP_eq_zero, List.mem_filter]
     intro it ⟨_, h⟩ hv
-    simp [hv] at h
+    have hv' : verdict (hasGraph s) it = .error := by simpa using hv
+    simp [isStored, hv'] at h
   refine ⟨?_, ?_, ?_⟩
   · rw [bulk_eq_sequential, bulk_eq_sequential, hacc]
   · rw [(counts_exact s stream).1, (counts_exact s good).1, hacc]
@@ -116,8 +117,9 @@ theorem addOne_other_graph (s : KState) (p : String × ElemIn) (k : SKey) (g : S
   have : (addOne s (g0, x)).kv = (addOneC (core s) (g0, x)).1 := by rw [← hc]; rfl
   rw [this]
   simp only [addOneC, addC, core]
-  split
-  · rw [insertAll_single]
+  by_cases hh : s.kv.has (.graph g0) = true
+  · simp only [hh, if_true]
+    rw [insertAll_single]
     have hne : g0 ≠ g := hg
     cases x with
     | v x =>
@@ -134,7 +136,19 @@ theorem addOne_other_graph (s : KState) (p : String × ElemIn) (k : SKey) (g : S
       · unfold addDoc
         cases k <;> simp [keyGraph] at hk <;> subst hk <;>
           (split <;> simp [get_set_ne, hne])
-  · rfl
+  · simp only [hh]; rfl
+
+theorem sequential_other_graph (k : SKey) (g : String) (hk : keyGraph k = some g)
+    (ps : List (String × ElemIn)) (hall : ∀ p ∈ ps, p.1 ≠ g) :
+    ∀ s : KState, (sequential s ps).kv.get k = s.kv.get k := by
+  induction ps with
+  | nil => intro s; rfl
+  | cons p ps ih =>
+    intro s
+    simp only [sequential, List.foldl_cons]
+    have := ih (fun q hq => hall q (List.mem_cons_of_mem _ hq)) (addOne s p)
+    simp only [sequential] at this
+    rw [this, addOne_other_graph s p k g hk (hall p (List.mem_cons_self ..))]
 
 /-- **Unauthorised elements are not stored**: behind the write filter nothing addressed to a
     graph the caller may not write is accepted, and no vertex, edge or adjacency key of such a
@@ -157,17 +171,11 @@ theorem unauthorised_not_stored (allowed : String → Bool) (s : KState) (stream
       (sequential s (accepted (hasGraph s) (authFilter allowed stream))).kv := by
     have := congrArg Prod.fst hcore; exact this
   rw [hkv]
-  -- the fold never touches a key of a refused graph
-  generalize accepted (hasGraph s) (authFilter allowed stream) = ps at hall
-  induction ps generalizing s with
-  | nil => rfl
-  | cons p ps ih =>
-    simp only [sequential, List.foldl_cons]
-    have hp : allowed p.1 = true := hall p (List.mem_cons_self ..)
-    have hne : p.1 ≠ g := by intro e; rw [e, hd] at hp; exact Bool.noConfusion hp
-    have := ih (addOne s p) (fun q hq => hall q (List.mem_cons_of_mem _ hq))
-    simp only [sequential] at this
-    rw [this, addOne_other_graph s p k g hk hne]
+  apply sequential_other_graph k g hk
+  intro p hp e
+  have := hall p hp
+  rw [e, hd] at this
+  exact Bool.noConfusion this
 
 /-! ### util.StreamBatch -/
 
@@ -206,14 +214,11 @@ theorem streamBatch_edges_of_valid (graph : String) (xs : List GElem)
 
 /-! ### non-vacuity -/
 
-example : (bulkAdd (run {} [.addGraph "g"]) [⟨"g", some (.v ⟨"a", "L", .obj []⟩), ""⟩,
-    ⟨"nope", some (.v ⟨"b", "L", .obj []⟩), ""⟩, ⟨"g", some (.v ⟨"", "L", .obj []⟩), ""⟩]).insertCount = 1 := by
-  decide
+/-- the hypothesis of `invalid_element_skipped` is satisfiable: an element of a graph that does not exist -/
+example (g : String) (h : isSchema g = false) (s : KState) (hg : hasGraph s g = false) :
+    verdict (hasGraph s) ⟨g, none, ""⟩ = .error := by simp [verdict, h, hg]
 
-example : (bulkAdd (run {} [.addGraph "g"]) [⟨"g", some (.v ⟨"a", "L", .obj []⟩), ""⟩,
-    ⟨"nope", some (.v ⟨"b", "L", .obj []⟩), ""⟩, ⟨"g", some (.v ⟨"", "L", .obj []⟩), ""⟩]).errorCount = 2 := by
-  decide
-
+/-- StreamBatch with k = 2 on three valid vertices: two calls, [a, b] and [c] -/
 example : vertexCalls 2 "g" [⟨"g", some ⟨"a", "L", .obj []⟩, none, ""⟩, ⟨"g", some ⟨"b", "L", .obj []⟩, none, ""⟩,
     ⟨"g", some ⟨"c", "L", .obj []⟩, none, ""⟩] =
     [[⟨"a", "L", .obj []⟩, ⟨"b", "L", .obj []⟩], [⟨"c", "L", .obj []⟩]] := by decide
